@@ -11,7 +11,13 @@
    context ended during that Read.  A WRITER SCRIPT is the list of answers of the destination, Write by Write. *)
 From Coq Require Import List ZArith Bool Lia.
 Import ListNotations.
+From GU Require Import C09.IR C09.Gen.
 Local Open Scope Z_scope.
+
+(* C09.Gen is REGENERATED from the Go source on every run (translator-c09/cmd/ckpt2coq).  The model below reads from it:
+   the limit guard and the argument of io.LimitReader, which streams are wrapped in the contextual reader / writer, whether
+   the context is tested first, the rules of ConvertIOError / ConvertContextError and what DetermineContextError consults
+   (part a); the programs of the walk / listing / removal families from which the traces of part (b) are built. *)
 
 Inductive kind := KNil | KCancelled | KTimeout | KEOF | KEmpty | KTooLarge | KOther.
 
@@ -21,6 +27,15 @@ Definition kind_eqb (a b : kind) : bool :=
   | KTooLarge, KTooLarge | KOther, KOther => true
   | _, _ => false
   end.
+
+Definition kind_of_errsym (e : errsym) : kind :=
+  match e with EErrEOF => KEOF | EErrCancelled => KCancelled | EErrTimeout => KTimeout | _ => KOther end.
+(* safeio.ConvertIOError applied to io.ErrUnexpectedEOF / io.EOF / the error of an ended context, by the generated rules *)
+Definition io_kind (e : errsym) : kind := kind_of_errsym (convert_io_cases (ioerr_rules gen_safeio) (ctxerr_rules gen_safeio) e).
+Definition unexp_kind : kind := io_kind EIoUnexpectedEOF.
+Definition eof_kind : kind := io_kind EIoEOF.
+(* kind reported when the context ends during the call (contextio returns ctx.Err(), converted by ConvertIOError) *)
+Definition mid_kind (deadline : bool) : kind := io_kind (if deadline then ECtxDeadline else ECtxCanceled).
 
 (* error returned by one source Read: none / io.EOF / io.ErrUnexpectedEOF / any other failure *)
 Inductive rerr := RNone | REof | RUnexp | RFail.
@@ -64,7 +79,7 @@ Definition after_err (e : rerr) (s : st) : st * next :=
   match e with
   | RNone => (s, Continue)          (* io.Copy: er == nil -> next iteration (also for zero-length reads) *)
   | REof => (s, Done KNil)          (* er == EOF -> break, err = nil *)
-  | RUnexp => (s, Done KEOF)        (* safeio/error.go:16-17: io.ErrUnexpectedEOF -> kind EOF *)
+  | RUnexp => (s, Done unexp_kind)  (* safeio/error.go: io.ErrUnexpectedEOF -> kind EOF, by the generated rules *)
   | RFail => (s, Done KOther)
   end.
 
@@ -72,7 +87,7 @@ Definition after_err (e : rerr) (s : st) : st * next :=
    the wrapped reader have let the Read through.  [rf]: the destination absorbs the data itself
    (bytes.Buffer.ReadFrom in ReadAtMost, or a destination implementing io.ReaderFrom, contextio/io.go:85-88):
    then no contextual Write stands between the Read and the destination.  [ck]: kind the context reports. *)
-Definition step (rf : bool) (ck : kind) (r : rd) (s : st) : st * next :=
+Definition step (rf ww : bool) (ck : kind) (r : rd) (s : st) : st * next :=
   let n := clamp (s_lim s) (Z.of_nat (length (s_src s))) (rd_n r) in
   let data := firstn (Z.to_nat n) (s_src s) in
   let ctx1 := s_ctx s || rd_cancel r in
@@ -81,7 +96,7 @@ Definition step (rf : bool) (ck : kind) (r : rd) (s : st) : st * next :=
   if 0 <? n then
     if rf then
       after_err (rd_err r) (mkSt (s_lim s1) ctx1 (s_src s1) (s_ws s1) (s_written s1 + n) (s_dl s1 ++ data) (s_tr s1))
-    else if ctx1 then (s1, Done ck)      (* contextio.writer.Write: context done -> 0, ctx.Err(); nothing reaches dst *)
+    else if ww && ctx1 then (s1, Done ck)   (* [ww] the destination is wrapped: contextio.writer.Write: context done -> 0, ctx.Err() *)
     else
       let '(acc, werr, wc, ws') := next_write n (s_ws s1) in
       let s2 := mkSt (s_lim s1) (ctx1 || wc) (s_src s1) ws' (s_written s1 + acc)
@@ -94,9 +109,9 @@ Definition step (rf : bool) (ck : kind) (r : rd) (s : st) : st * next :=
 (* the guards in front of every Read.  [ctx_first]: contextio.reader wraps the limit reader (ReadAtMost,
    read.go:51-57) — otherwise the limit reader wraps contextio.reader (io.CopyN called on the contextual
    reader, copy.go:18-19,26). *)
-Definition guard (ctx_first : bool) (ck : kind) (s : st) : option kind :=
-  if ctx_first then (if s_ctx s then Some ck else if lim_done (s_lim s) then Some KNil else None)
-  else (if lim_done (s_lim s) then Some KNil else if s_ctx s then Some ck else None).
+Definition guard (ctx_first rw : bool) (ck : kind) (s : st) : option kind :=   (* [rw]: the source is wrapped in the contextual reader *)
+  if ctx_first then (if rw && s_ctx s then Some ck else if lim_done (s_lim s) then Some KNil else None)
+  else (if lim_done (s_lim s) then Some KNil else if rw && s_ctx s then Some ck else None).
 
 Record outcome := mkOut {
   o_st : st; o_kind : kind;
@@ -104,22 +119,31 @@ Record outcome := mkOut {
   o_starved : bool         (* the loop asked for a Read beyond the script (answered 0, EOF) *)
 }.
 
-Fixpoint loop (rf ctx_first : bool) (ck : kind) (rs : list rd) (s : st) : outcome :=
-  match guard ctx_first ck s with
+Fixpoint loop (rf ctx_first rw ww : bool) (ck : kind) (rs : list rd) (s : st) : outcome :=
+  match guard ctx_first rw ck s with
   | Some k => mkOut s k rs false
   | None =>
     match rs with
     | [] => mkOut (mkSt (s_lim s) (s_ctx s) (s_src s) (s_ws s) (s_written s) (s_dl s) (s_tr s ++ [EvRead (s_ctx s) 0]))
                   KNil [] true
     | r :: rs' =>
-      match step rf ck r s with
-      | (s', Continue) => loop rf ctx_first ck rs' s'
+      match step rf ww ck r s with
+      | (s', Continue) => loop rf ctx_first rw ww ck rs' s'
       | (s', Done k) => mkOut s' k rs' false
       end
     end
   end.
 
 Definition init (lim : option Z) (src : list Z) (ws : list wr) : st := mkSt lim false src ws 0 [] [].
+Definition init_done (lim : option Z) (src : list Z) (ws : list wr) : st := mkSt lim true src ws 0 [] [].
+
+(* the limit reader ReadAtMost puts in front of the source, from the generated guard and argument *)
+Definition limit_of (f : safeio_facts) (max : Z) : option Z :=
+  if cmp_eval (fst (ram_guard f)) max (snd (ram_guard f))
+  then Some (match ram_limarg f with LimMax => max | LimMaxPlus d => max + d | LimConst c => c end)
+  else None.
+(* an error is reported with its kind only if it went through ConvertIOError *)
+Definition converted (conv : bool) (k : kind) : kind := if conv then k else match k with KNil => KNil | _ => KOther end.
 
 (* result of a helper: returned count, error kind, bytes handed out (content resp. destination), stream log *)
 Record result := mkRes { r_count : Z; r_kind : kind; r_bytes : list Z; r_tr : list ev; r_left : list rd; r_wleft : list wr; r_starved : bool }.
@@ -130,34 +154,38 @@ Definition res_of (o : outcome) (count : Z) (k : kind) (bytes : list Z) : result
 (* [pre] = the context is already done at the call, and reports this kind (parallelisation.go:20-22) *)
 Definition refused (k : kind) (rs : list rd) (ws : list wr) : result := mkRes 0 k [] [] rs ws false.
 
-(* safeio.CopyDataWithContext (copy.go:12-14,22-34) *)
+(* safeio.CopyDataWithContext (copy.go): context test first, then io.Copy between the wrapped streams *)
 Definition copy_data (rf : bool) (pre : option kind) (ck : kind) (src : list Z) (rs : list rd) (ws : list wr) : result :=
+  let run st0 := let o := loop rf false (copy_src_wrapped gen_safeio) (copy_dst_wrapped gen_safeio) ck rs st0 in
+                 res_of o (s_written (o_st o)) (converted (safecopy_converts gen_safeio) (o_kind o)) (s_dl (o_st o)) in
   match pre with
-  | Some k => refused k rs ws
-  | None => let o := loop rf false ck rs (init None src ws) in
-            res_of o (s_written (o_st o)) (o_kind o) (s_dl (o_st o))
+  | Some k => if copy_ctx_test_first gen_safeio then refused k rs ws else run (init_done None src ws)
+  | None => run (init None src ws)
   end.
 
-(* safeio.CopyNWithContext (copy.go:17-19) = io.CopyN: written == n -> nil; written < n && err == nil -> EOF *)
+(* safeio.CopyNWithContext = io.CopyN through the same wrappers: written == n -> nil; written < n && err == nil -> EOF *)
 Definition copy_n (rf : bool) (pre : option kind) (ck : kind) (n : Z) (src : list Z) (rs : list rd) (ws : list wr) : result :=
+  let lim := if copyn_is_iocopyn_same_n gen_safeio then Some n else None in
+  let run st0 := let o := loop rf false (copy_src_wrapped gen_safeio) (copy_dst_wrapped gen_safeio) ck rs st0 in
+                 let w := s_written (o_st o) in
+                 let k := if w =? n then KNil else if (w <? n) && kind_eqb (o_kind o) KNil then eof_kind else o_kind o in
+                 res_of o (if w =? n then n else w) (converted (safecopy_converts gen_safeio) k) (s_dl (o_st o)) in
   match pre with
-  | Some k => refused k rs ws
-  | None => let o := loop rf false ck rs (init (Some n) src ws) in
-            let w := s_written (o_st o) in
-            let k := if w =? n then KNil else if (w <? n) && kind_eqb (o_kind o) KNil then KEOF else o_kind o in
-            res_of o (if w =? n then n else w) k (s_dl (o_st o))
+  | Some k => if copy_ctx_test_first gen_safeio then refused k rs ws else run (init_done lim src ws)
+  | None => run (init lim src ws)
   end.
 
-(* safeio.ReadAtMost (read.go:22-67); the capacity only sizes the buffer and has no observable effect.
+(* safeio.ReadAtMost (read.go); the capacity only sizes the buffer and has no observable effect.
    On any error the named result [content] is still nil; zero bytes read -> kind Empty. *)
 Definition read_at_most (pre : option kind) (ck : kind) (max : Z) (src : list Z) (rs : list rd) : result :=
+  let run st0 := let o := loop true true (ram_src_wrapped gen_safeio) true ck rs st0 in
+            match converted (ram_converts gen_safeio) (o_kind o) with
+            | KNil => if ram_empty_rule gen_safeio && (s_written (o_st o) =? 0) then res_of o 0 KEmpty [] else res_of o (s_written (o_st o)) KNil (s_dl (o_st o))
+            | k => if ram_content_set_after_error_return gen_safeio then res_of o 0 k [] else res_of o (s_written (o_st o)) k (s_dl (o_st o))
+            end in
   match pre with
-  | Some k => refused k rs []
-  | None => let o := loop true true ck rs (init (if max <? 0 then None else Some max) src []) in
-            match o_kind o with
-            | KNil => if s_written (o_st o) =? 0 then res_of o 0 KEmpty [] else res_of o (s_written (o_st o)) KNil (s_dl (o_st o))
-            | k => res_of o 0 k []
-            end
+  | Some k => if ram_ctx_test_before_alloc gen_safeio then refused k rs [] else run (init_done (limit_of gen_safeio max) src [])
+  | None => run (init (limit_of gen_safeio max) src [])
   end.
 
 (* filesystem.VFS.ReadFileContent (files.go:364-401): Stat size above the maximum -> TooLarge, else ReadAtMost *)
@@ -173,7 +201,13 @@ Definition limited_read (pre : option kind) (ck : kind) (apply : bool) (max : Z)
    kind (parallelisation.go DetermineContextError = ConvertContextError(ctx.Err()): Canceled -> cancelled,
    DeadlineExceeded -> timeout); the cause is data the helpers never look at. *)
 Record ctxinfo := mkCtx { cx_deadline : bool; cx_cause : option (list Z) }.
-Definition kind_of_ctx (c : ctxinfo) : kind := if cx_deadline c then KTimeout else KCancelled.
+(* what DetermineContextError reports: from the generated source (ctx.Err() / context.Cause(ctx)) and conversion rules *)
+Definition kind_of_ctx (c : ctxinfo) : kind :=
+  let raw := if cx_deadline c then ECtxDeadline else ECtxCanceled in
+  match dce_source gen_safeio, cx_cause c with
+  | CtxErr, _ | CtxCause, None => if dce_converts gen_safeio then kind_of_errsym (convert_ctx (ctxerr_rules gen_safeio) raw) else KOther
+  | _, _ => KOther      (* the cause itself: an arbitrary error *)
+  end.
 Definition pre_of (done_at_call : bool) (c : ctxinfo) : option kind := if done_at_call then Some (kind_of_ctx c) else None.
 
 (* ---------- script classes used by the theorems ---------- *)
@@ -272,7 +306,8 @@ Definition walk_entry (cb : nat) (t : tree) : list bev := Op :: walk_tr cb t.
 
 (* ChmodRecursively / ChownRecursively (files.go:975-991, :1064-1080) on a directory: check, IsFile (Exists + nothing
    more for a directory: Stat is only reached for existing paths — Exists, Stat), then the walk with a 1-operation callback *)
-Definition chmod_entry (t : tree) : list bev := Chk :: opsn (c_isdir t) ++ walk_entry 1 t.
+Definition chmod_entry (t : tree) : list bev :=
+  Chk :: opsn (c_isdir t) ++ match t with F _ => [Op] | D _ => walk_entry 1 t end.   (* a file: one Chmod *)
 
 (* ListDirTreeWithContextAndExclusionPatterns (files.go:1841-1873): check (:1842), Ls (:1851), per element:
    check (:1857), IsDir (:1864), recurse into directories *)
@@ -309,7 +344,8 @@ Fixpoint remove_tr (t : tree) : list bev :=
 Definition clean_entry (t : tree) : list bev :=
   match t with
   | D (c0 :: cs0) => Chk :: opsn (c_exists t + c_isempty t + c_ls) ++ flat_map (fun c => Chk :: remove_tr c) (c0 :: cs0)
-  | _ => Chk :: opsn (c_exists t + c_isempty t)
+  | D [] => Chk :: opsn (c_exists t + c_isempty t)
+  | F _ => Chk :: opsn (c_exists t + c_isempty t + c_ls)     (* not a directory: the listing fails *)
   end.
 
 (* copyFileBetweenFS...: CHECK, Open, Create, CopyDataWithContext (CHECK at the call, CHECK in contextio.copier.ReadFrom,
@@ -363,13 +399,92 @@ Definition B_copy : nat := 30.
 Definition B_move : nat := 56.
 
 Inductive epk := EWalk (cb : nat) | EChmod | EListTree | ERemove | EClean | ECopy | EMoveNoRename.
+(* ---------- the traces of the walk / listing / removal / cleaning entry points, BUILT FROM THE GENERATED PROGRAMS ---------- *)
+(* cost of a helper in backend operations of the in-memory back end, on the entry it is applied to *)
+Definition cost (cb : nat) (h : helper) (r : role) (t : tree) : nat :=
+  match h with
+  | HExists => c_exists t
+  | HIsDir | HIsFile => c_isdir t
+  | HIsEmpty => match r with RSelfEmptied => c_isempty_emptied t | _ => c_isempty t end
+  | HLs => c_ls
+  | HCallback => cb
+  | _ => 1
+  end.
+
+Definition evalc (c : cnd) (t : tree) : bool :=
+  match c with
+  | CIsDir => is_dir t
+  | CIsFile => negb (is_dir t)
+  | CDirNonEmpty => match t with D (_ :: _) => true | _ => false end
+  | CIsEmptyDir => match t with D [] => true | _ => false end
+  | CTrue => true
+  | CFalse => false
+  end.
+
+(* the body of a loop, on one entry [t]; [rec f] = the run of family f on that entry *)
+Fixpoint body_item (cb : nat) (rec : fam -> list bev) (t : tree) (i : item) {struct i} : list bev :=
+  match i with
+  | IChk => [Chk]
+  | IOp h ro => opsn (cost cb h ro t)
+  | IIf c th el =>
+      let go := (fix go (l : list item) : list bev :=
+                   match l with [] => [] | x :: r => body_item cb rec t x ++ go r end) in
+      if evalc c t then go th else go el
+  | IFor _ => []                                  (* no loop inside a loop in these programs *)
+  | ICallChild f | ICallChildDropsError f => rec f
+  end.
+Definition body_items (cb : nat) (rec : fam -> list bev) (t : tree) (l : list item) : list bev :=
+  flat_map (body_item cb rec t) l.
+
+Definition gen_prog (f : fam) : list item :=
+  match f with FWalk => gen_walk_body | FListTree => gen_listtree_body | FRemove => gen_remove_body end.
+
+(* a program on the entry [t]; loops run over the children of t in listing order *)
+Fixpoint interp (cb : nat) (t : tree) (l : list item) {struct t} : list bev :=
+  let topi := (fix topi (i : item) : list bev :=
+     match i with
+     | IChk => [Chk]
+     | IOp h ro => opsn (cost cb h ro t)
+     | IIf c th el =>
+         let go := (fix go (l : list item) : list bev := match l with [] => [] | x :: r => topi x ++ go r end) in
+         if evalc c t then go th else go el
+     | IFor b =>
+         match t with
+         | D cs => flat_map (fun c => body_items cb (fun f => interp cb c (gen_prog f)) c b) cs
+         | F _ => []
+         end
+     | ICallChild _ | ICallChildDropsError _ => []   (* only meaningful inside a loop *)
+     end) in
+  flat_map topi l.
+
+(* static condition on a program: on every path (dead branches included) a mutating helper is preceded by a context
+   test since the start of the program / of the iteration, and no error of an entry is dropped.
+   [guarded_item i seen] = (ok, a test has been seen after i) *)
+Fixpoint guarded_item (i : item) (seen : bool) {struct i} : bool * bool :=
+  let go := (fix go (l : list item) (seen : bool) : bool * bool :=
+               match l with
+               | [] => (true, seen)
+               | x :: r => let '(o1, s1) := guarded_item x seen in let '(o2, s2) := go r s1 in (o1 && o2, s2)
+               end) in
+  match i with
+  | IChk => (true, true)
+  | IOp h _ => (negb (mutating h && negb seen), seen)
+  | IIf _ th el => let '(o1, s1) := go th seen in let '(o2, s2) := go el seen in (o1 && o2, s1 && s2)
+  | IFor b => let '(o1, _) := go b false in (o1, seen)
+  | ICallChild _ => (true, seen)
+  | ICallChildDropsError _ => (false, seen)
+  end.
+Fixpoint guarded_from (l : list item) (seen : bool) : bool :=
+  match l with [] => true | x :: r => let '(o, s) := guarded_item x seen in o && guarded_from r s end.
+Definition guarded (l : list item) : bool := guarded_from l false.
+
 Definition ep_trace (e : epk) (t : tree) : list bev :=
   match e with
-  | EWalk cb => walk_entry cb t
-  | EChmod => chmod_entry t
-  | EListTree => listtree_entry t
-  | ERemove => remove_tr t
-  | EClean => clean_entry t
+  | EWalk cb => interp cb t gen_walk_entry
+  | EChmod => interp gen_chmod_callback_ops t gen_chmod_entry
+  | EListTree => interp 0 t gen_listtree_entry
+  | ERemove => interp 0 t gen_remove_entry
+  | EClean => interp 0 t gen_clean_entry
   | ECopy => copy_entry t
   | EMoveNoRename => move_entry t
   end.
